@@ -700,7 +700,9 @@ func init() {
 		a := newProducer()
 		defer a.stop()
 		L := 78
-		forks := []forkSpec{{36, 44}, {31, 36}, {30, 33}, {17, 20}, {6, 9}, {2, 2}, {1, 1}}
+		// the last branch forks in the election tick BEFORE the trunk tip's tick and runs past the end of the tip's tick, so that
+		// consensus points of a finished tick computed on the abandoned branch exist when the node switches (C06)
+		forks := []forkSpec{{36, 44}, {31, 36}, {30, 33}, {17, 20}, {6, 9}, {2, 2}, {1, 1}, {22, 40}}
 		if c.Tier == "thorough" {
 			L = 110
 			forks = append(forks, forkSpec{50, 60}, forkSpec{12, 30}, forkSpec{3, 8})
@@ -749,6 +751,23 @@ func init() {
 				}
 				f.stop()
 			}
+		}
+
+		// ---- part 1b: a switch across an election-tick boundary onto a branch that finishes the next tick, then compare with
+		//      a node that only ever saw that branch (ledger, views, pool, consensus statistics, schedule)
+		{
+			br := len(hist.paths) - 1
+			fork := int(hist.forkAt[br])
+			f := r.newFollower()
+			if r.syncTo(f, 0, L) {
+				// ask for the statistics while the node is still on the trunk (as the RPC cache does every few minutes)
+				f.cons.FrontierPillarReader().EpochStats(0)
+				c.Hit("fork-across-tick")
+				if r.deliver(f, "fork-across-tick", r.seg(hist.paths[br], fork+1, len(hist.paths[br]))) {
+					r.reverify(f)
+				}
+			}
+			f.stop()
 		}
 
 		// ---- part 2: directed sweep: every corruption kind at first / last / middle position, on an
